@@ -19,6 +19,8 @@ pub struct ClientCfg {
 	/// WebSocket pings every so often; the read task's inactivity check ticks at the same period (the number of tolerated
 	/// failures is set so high that it never closes the connection)
 	pub ping_interval: Option<Duration>,
+	/// how many inactive periods the client tolerates before it gives the connection up (None: practically never)
+	pub ping_max_failures: Option<usize>,
 	/// Which builder assembles the client: 0 the core `ClientBuilder`; 1 the core builder with `set_rpc_middleware` called
 	/// after every option was set; 2 `WsClientBuilder::build_with_transport`; 3 the same with `set_rpc_middleware` called
 	/// after every option was set. The middleware is the default logger, so all four yield the same client type and must
@@ -29,14 +31,14 @@ pub struct ClientCfg {
 impl Default for ClientCfg {
 	fn default() -> Self {
 		// the request timeout is a real-time timer (futures_timer): 60 s never fires in virtual-time runs
-		ClientCfg { string_ids: false, max_concurrent_requests: 256, sub_buffer: 1024, request_timeout: Duration::from_secs(60), ping_interval: None, build_path: 0 }
+		ClientCfg { string_ids: false, max_concurrent_requests: 256, sub_buffer: 1024, request_timeout: Duration::from_secs(60), ping_interval: None, ping_max_failures: None, build_path: 0 }
 	}
 }
 
 /// Build the real client on the scripted transport (must be called inside a tokio runtime).
 pub fn client(cfg: ClientCfg) -> (Arc<SimClient>, ServerSide) {
 	let (tx, rx, side): (ScriptSender, ScriptReceiver, ServerSide) = scripted_transport();
-	let ping = cfg.ping_interval.map(|d| jsonrpsee_core::client::async_client::PingConfig::new().ping_interval(d).inactive_limit(d).max_failures(usize::MAX / 2));
+	let ping = cfg.ping_interval.map(|d| jsonrpsee_core::client::async_client::PingConfig::new().ping_interval(d).inactive_limit(d).max_failures(cfg.ping_max_failures.unwrap_or(usize::MAX / 2)));
 	if cfg.build_path >= 2 {
 		let mut b = jsonrpsee_ws_client::WsClientBuilder::new()
 			.request_timeout(cfg.request_timeout)
@@ -72,7 +74,7 @@ pub fn client(cfg: ClientCfg) -> (Arc<SimClient>, ServerSide) {
 		.max_buffer_capacity_per_subscription(cfg.sub_buffer)
 		.id_format(if cfg.string_ids { IdKind::String } else { IdKind::Number });
 	if let Some(d) = cfg.ping_interval {
-		b = b.enable_ws_ping(jsonrpsee_core::client::async_client::PingConfig::new().ping_interval(d).inactive_limit(d).max_failures(usize::MAX / 2));
+		b = b.enable_ws_ping(jsonrpsee_core::client::async_client::PingConfig::new().ping_interval(d).inactive_limit(d).max_failures(cfg.ping_max_failures.unwrap_or(usize::MAX / 2)));
 	}
 	let c = b.build_with_tokio(tx, rx);
 	(Arc::new(c), side)
